@@ -31,4 +31,10 @@ PROPS = {
         rule="each run: universe of 1-40 keys (thorough: up to 300; mixed ciphers, duplicate (cipher,secret) pairs, shared secrets), 1-4 key-list versions (random subsets, random order) installed by concurrent updater tasks, 1-8 connections from 4 client IPs with segmentation and short reads; non-trivial = at least one must-authenticate or must-reject verdict was decided; distinct = distinct (event-log hash, schedule fingerprint)",
         real=["service.NewShadowsocksStreamAuthenticator, findAccessKey/findEntry trial decryption, cipherList (Snapshot/MarkUsed/Update), StreamHandler, StreamServe, ReplayCache; outline-sdk shadowsocks on both sides"],
         stub=COMMON_STUB, assumptions=COMMON_ASSUME),
+    "C06": dict(
+        scenarios=[dict(name="c06", quick=2500, thorough=250000, quick_budget_s=150, thorough_budget_s=1800)],
+        level_text="Seeded exploration with a virtual clock: 1-4 probe connections (random bytes of 0..50000 bytes, valid streams truncated or bit-flipped at every offset class, bad address headers, corrupted later chunks, replays) against the real handler with a drawn handshake timeout (50 ms .. 59 s); the ground-truth ledger of the simulated socket gives bytes written back, bytes consumed, FIN/RST and the exact virtual instant of the server's close, compared with the deadline (plus injected clock skew) or the client's FIN. Sampling, not proof.",
+        rule="each run: 1-8 keys, replay cache on/off, timeout T in {50ms,1s,7s,59s}, 1-4 probes; per probe a content class (random length, truncation offset, bit-flip offset class, bad address type, later-chunk corruption, replay) and a client behaviour (idle, FIN at k/10 of T, trickle then idle); clock-tick injection in half of the runs; non-trivial = at least one probe verdict decided; distinct = distinct (event-log hash, schedule fingerprint)",
+        real=["service.streamHandler (handleConnection, absorbProbe, proxyConnection), authenticator, ReplayCache, StreamServe; outline-sdk shadowsocks"],
+        stub=COMMON_STUB, assumptions=COMMON_ASSUME + ["RST is modelled as in Linux: closing a socket with unread inbound data resets the peer"]),
 }
